@@ -19,6 +19,9 @@ enum MacroKind {
     PrefixText,
     BraceDelim,
     CsDelim,
+    /// A delimiter drawn over a two-letter alphabet (self-overlapping more often than not); calls
+    /// carry near misses before the real delimiter.
+    DelimRandom(String),
 }
 
 #[derive(Clone, Debug, PartialEq)]
@@ -250,6 +253,15 @@ impl RawGen {
                     7 => ("#1#".to_string(), format!("[{id}~#1]").replace('~', "="), MacroKind::BraceDelim),
                     // delimiters that are a control sequence and a character beyond the BMP
                     8 => ("#1\\relax#2\u{1d538}".to_string(), format!("[#2,{id},#1]"), MacroKind::CsDelim),
+                    9 => {
+                        let n = 2 + rng.below(6);
+                        let mut pat = String::new();
+                        for _ in 0..n {
+                            // biased towards runs, which is what makes borders long
+                            pat.push(if rng.chance(2, 3) { '-' } else { '>' });
+                        }
+                        (format!("#1{pat}"), format!("[#1|{id}]"), MacroKind::DelimRandom(pat))
+                    }
                     0 => ("#1#2".to_string(), format!("<#2|#1|{id}>"), MacroKind::Undelimited(2)),
                     1 => ("#1".to_string(), format!("({id}:#1#1)"), MacroKind::Undelimited(1)),
                     2 => ("#1.#2;".to_string(), format!("[#1/#2/{id}]"), MacroKind::DelimDotSemi),
@@ -677,6 +689,23 @@ impl RawGen {
             MacroKind::PrefixText => format!("{name} X\u{e9}{{P{v}}}"),
             MacroKind::BraceDelim => format!("{name} P{v}{{}}"),
             MacroKind::CsDelim => format!("{name} P{v}\\relax Q\u{1d538}"),
+            MacroKind::DelimRandom(pat) => {
+                // near misses: prefixes of the delimiter, broken by the other letter or restarted
+                let mut x = (v as u64).wrapping_mul(0x9E37_79B9_7F4A_7C15) | 1;
+                let mut t = String::new();
+                for _ in 0..(x % 4) + 1 {
+                    x = x.wrapping_mul(6364136223846793005).wrapping_add(1442695040888963407);
+                    let cut = 1 + ((x >> 33) as usize % pat.len());
+                    t.push_str(&pat[..cut]);
+                    x = x.wrapping_mul(6364136223846793005).wrapping_add(1442695040888963407);
+                    match (x >> 33) % 3 {
+                        0 => t.push('-'),
+                        1 => t.push('>'),
+                        _ => {}
+                    }
+                }
+                format!("{name} {t}x{v}{t}{pat}{t}{pat}")
+            }
         }
     }
 
@@ -684,7 +713,7 @@ impl RawGen {
     pub fn whole_line(&mut self, rng: &mut Rng) -> String {
         self.reach.push("line_with_visible_end_of_line");
         let id = self.id();
-        match rng.below(7) {
+        match rng.below(8) {
             0 => format!("W{id}"),
             1 => format!("W{id} \\relax"),
             2 => format!("\\count18={id}"),
@@ -692,6 +721,9 @@ impl RawGen {
             // Multi-line sources: positions of errors on later lines depend on the tracer state.
             4 => format!("W{id}\nX{id} \\undefinedcs Y"),
             5 => format!("W{id}%\n\n  é{id}\\count18=x"),
+            // a backslash at the end of a line is the control symbol whose name is the end-of-line
+            // character; it can be defined and used like any other name
+            6 => format!("\\def\\\n{{W{id}.}}A\\\nB"),
             _ => format!("\\count18={id}\nV\\the\\count18\n\\fi"),
         }
     }
